@@ -19,6 +19,44 @@ def mand_ok(s):
         if n in (b'USED', b'FRAMES', b'RATE') and not p['vals']: return False
     return True
 
+def retyped(s):
+    """a mandatory parameter that EXISTS with another type or without the value that is read (the known finding); a mandatory
+    parameter that does not exist at all (objects loaded from files with an empty ANALOG group) is another situation"""
+    for g, n, ty in MAND:
+        p = s.param(g, n)
+        if p is None: continue
+        if ty and p['type'] != ty: return True
+        if n in (b'USED', b'FRAMES', b'RATE') and not p['vals']: return True
+    return False
+
+def loaded_cases(rng, tier, shared):
+    """objects LOADED from spec-encoded files (incl. an ANALOG group without parameters, labels fewer than points), then one
+    refused call: a frame with the file's points plus an analog sub-frame nobody announced, a frame with a point missing, a
+    column for the wrong number of frames, an untyped parameter for a new group"""
+    import os
+    from lib import filegen, c3dspec
+    cases = []
+    for i in range(30 if tier == 'quick' else 1500):
+        L = filegen.make_layout(rng)
+        c = filegen.make_content(rng, dict(empty_analog=True, nchan=0) if rng.random() < 0.5 else None)
+        name = 'ld%d.c3d' % i; open(os.path.join(shared, name), 'wb').write(c3dspec.encode(L, c))
+        h, groups, frames = filegen.expected_dump(L, c)
+        if frames: pts = [p[0] for p in frames[0]['pts']]
+        else:
+            lab = [pp['vals'] for g in groups if g['name'] == b'POINT' for pp in g['params'] if pp['name'] == b'LABELS']
+            pts = [x.rstrip(b' ') for x in (lab[0] if lab else [])][:c['npoints']]
+            pts += [b'unlabeled_point_%d' % k for k in range(len(pts), c['npoints'])]
+        nf = len(frames)
+        calls = []
+        litp = ' '.join('%s 3f800000 40000000 40400000 00000000' % hx(n) for n in pts)
+        calls.append(('loaded:frame+unannounced-analog', 'frame 0 - %d %s 1 1 %s 3f000000' % (len(pts), litp, hx(b'zz'))))
+        if pts: calls.append(('loaded:frame-point-missing', 'frame 0 - %d %s 0' % (len(pts) - 1, ' '.join('%s 3f800000 40000000 40400000 00000000' % hx(n) for n in pts[1:]))))
+        calls.append(('loaded:pointcol-wrong-frame-count', 'pointcol 0 %d %s' % (nf + 1, ' '.join('1 %s 3f800000 0 0 0 0' % hx(b'fresh') for _ in range(nf + 1)))))
+        for j, (kind, call) in enumerate(calls):
+            cases.append(('ld%d_%d' % (i, j), ['loadx 0 ' + name, 'snap 0', call, 'snap 0'], kind))
+        cases.append(('ld%d_p' % i, ['loadx 0 ' + name, 'snap 0', 'P.new %s x' % hx(b'NOTYPE'), 'param 0 ' + hx(b'BRANDNEW'), 'snap 0'], 'loaded:untyped-parameter-new-group'))
+    return cases
+
 def refusing_calls(rng, sh):
     """calls that must be refused, incl. calls whose arguments are only partly invalid"""
     out = []
@@ -79,10 +117,13 @@ def run(rep, work, rng, tier):
         for j, (kind, calls) in enumerate(refusing_calls(rng, b.sh)):
             cases.append(('r%d_%d' % (i, j), base + ['snap 0'] + calls + ['snap 0']))
             kinds[kind] = kinds.get(kind, 0) + 1
+    shared = work.sub('shared')
+    for cid, lines, kind in loaded_cases(rng, tier, shared):
+        cases.append((cid, lines)); kinds[kind] = kinds.get(kind, 0) + 1
     # correspondence: outcome of the last call and the snapshot after it
     def sel(ln): return True
     (c, _), (m, _), nd0 = common.correspondence(rep, work, [], label='x')
-    (cres, cown, _), (mres, mown, _) = harness.run_both(cases, work)
+    (cres, cown, _), (mres, mown, _) = harness.run_both(cases, work, shared=shared)
     nd = 0; bad = 0; thrown = {}; unchanged = 0
     for cid, lines in cases:
         cl, cs = cres.get(cid, ([], 'missing')); ml, ms = mres.get(cid, ([], 'missing'))
@@ -106,7 +147,7 @@ def run(rep, work, rng, tier):
             thrown[r.out[0]] = thrown.get(r.out[0], 0) + 1
             if r.before.raw != r.after.raw:
                 sig = None
-                if not mand_ok(r.before) or ('param:retype' in ' '.join(lines[-4:]) or lines[-3].startswith('P.set F 0 1 3f800000')):
+                if retyped(r.before) or ('param:retype' in ' '.join(lines[-4:]) or lines[-3].startswith('P.set F 0 1 3f800000')):
                     sig = 'mandatory-parameter-retyped'
                 diff = [(a, b2) for a, b2 in zip(r.before.raw, r.after.raw) if a != b2][:2]
                 if rep.violation('oracle', 'the call %s threw %s but the object changed: %s' % (r.line[:80], r.out[0], diff),
